@@ -2,7 +2,7 @@
    the production task is reported finished exactly once, in the call that delivers the
    last outstanding completion; the reported state (running, awaited, final) follows.
    Proof file. *)
-From PFDL Require Import RefSem RunCase Monitors RefBase.
+From PFDL Require Import RefSem RunCase Monitors RefBase Examples.
 From Coq Require Import Lia.
 
 (* ---- the monitor's view of a log, in terms of the counts of RefBase ---- *)
@@ -14,7 +14,7 @@ Lemma count_kind_is0 : forall k l,
     count_kind k (ee_notifs l) = List.length (filter (is0 k) l).
 Proof.
   intros k l. unfold count_kind. induction l as [|e l IH]; [reflexivity|].
-  rewrite ee_cons. destruct e as [[|l0] n r|o kk nm id fl|v c]; cbn [app filter is0]; auto.
+  rewrite ee_cons. destruct e as [[|l0] n r|o kk nm id fl|v c|fi|fi fr]; cbn [app filter is0]; auto.
   cbn [fst]. unfold is_kind at 1. destruct (nkind_eqb (n_kind n) k); cbn [List.length]; auto.
 Qed.
 
@@ -22,7 +22,7 @@ Lemma has_prod_isP : forall k l,
     has_prod k (ee_notifs l) = negb (Nat.eqb (List.length (filter (isP k) l)) 0).
 Proof.
   intros k l. unfold has_prod. induction l as [|e l IH]; [reflexivity|].
-  rewrite ee_cons. destruct e as [[|l0] n r|o kk nm id fl|v c]; cbn [app filter isP existsb]; auto.
+  rewrite ee_cons. destruct e as [[|l0] n r|o kk nm id fl|v c|fi|fi fr]; cbn [app filter isP existsb]; auto.
   cbn [fst]. unfold is_kind at 1. change (is_prod n) with (prodn n).
   destruct (nkind_eqb (n_kind n) k && prodn n); cbn [orb List.length]; auto.
 Qed.
@@ -31,7 +31,7 @@ Lemma count_prod_isP : forall k l,
     count_kind k (filter (fun p => is_prod (fst p)) (ee_notifs l)) = List.length (filter (isP k) l).
 Proof.
   intros k l. unfold count_kind. induction l as [|e l IH]; [reflexivity|].
-  rewrite ee_cons. destruct e as [[|l0] n r|o kk nm id fl|v c]; cbn [app filter isP]; auto.
+  rewrite ee_cons. destruct e as [[|l0] n r|o kk nm id fl|v c|fi|fi fr]; cbn [app filter isP]; auto.
   cbn [fst]. change (is_prod n) with (prodn n).
   destruct (prodn n); cbn [filter fst].
   - rewrite andb_true_r. unfold is_kind at 1. destruct (nkind_eqb (n_kind n) k); cbn [List.length]; auto.
@@ -42,7 +42,7 @@ Lemma forallb_snd_run : forall l, forallb run_flag l = true -> forallb (fun p =>
 Proof.
   induction l as [|e l IH]; [reflexivity|].
   intro H. cbn [forallb] in H. apply andb_true_iff in H. destruct H as [H1 H2].
-  rewrite ee_cons. destruct e as [[|l0] n r|o kk nm id fl|v c]; cbn [app]; auto.
+  rewrite ee_cons. destruct e as [[|l0] n r|o kk nm id fl|v c|fi|fi fr]; cbn [app]; auto.
   cbn [forallb snd]. cbn in H1. rewrite H1. cbn. auto.
 Qed.
 
@@ -201,7 +201,7 @@ Section C01.
     set (g0 := clear_log (sc_g s)) in *.
     mstep as u1 g1 E1. unfold set_running in E1. inv E1.
     mstep as id g2 E2. unfold fresh_t in E2. inv E2.
-    assert (Hid : g_tid (g0 <| g_running := true |>) = 0) by exact Htid. rewrite Hid in H.
+    rewrite Htid in H.
     mstep as u3 g3 E3. unfold emit in E3. apply emit_prod_facts in E3; [|left; reflexivity|exact Hl].
     cbn [g_ls g_obs g_running g_sid g_tid g_awaited set] in E3.
     destruct E3 as (A1 & A2 & A3 & A4 & A5 & A6 & A7 & A8 & A9 & A10 & A11).
@@ -273,9 +273,255 @@ Section C01.
         split; [rewrite C1, F1, A1; exact Hl|]. split.
         * rewrite C6, B1, Aw3. constructor.
         * rewrite C9, (C10 TS) by discriminate. rewrite (F9 TS), (F9 TF), N3, N4, C6, B1, Aw3. cbn.
-          rewrite orb_true_r. repeat split; reflexivity.
+          rewrite ?orb_true_r. repeat split; try reflexivity; apply orb_true_r.
+  Qed.
+
+  Lemma remove_first_length : forall A (p : A -> bool) l l',
+      remove_first p l = Some l' -> List.length l = S (List.length l').
+  Proof.
+    induction l as [|x l IH]; intros l' H; cbn in H; [discriminate|].
+    destruct (p x).
+    - inv H. reflexivity.
+    - destruct (remove_first p l) as [t|]; [|discriminate]. inv H. cbn. f_equal. apply IH. reflexivity.
+  Qed.
+
+  Lemma remove_first_Forall : forall A (P : A -> Prop) (p : A -> bool) l l',
+      remove_first p l = Some l' -> Forall P l -> Forall P l'.
+  Proof.
+    induction l as [|x l IH]; intros l' H HF; cbn in H; [discriminate|].
+    inversion HF as [|? ? Hx Hr]; subst.
+    destruct (p x).
+    - inv H. exact Hr.
+    - destruct (remove_first p l) as [t|]; [|discriminate]. inv H. constructor; [exact Hx|]. apply IH; auto.
+  Qed.
+
+  (* an accepted completion *)
+  Lemma finish_step : forall f s m id cid i sti st g',
+      Inv s m -> sc_root s = Some (RCall cid i sti) ->
+      (unawait id ;;;
+       r <- deliver_block orc imm f cid [] body i sti id ;;
+       match r with
+       | None => lift Unsupported
+       | Some None => finish_root ;;; ret RDone
+       | Some (Some (j, st')) => ret (RCall cid j st')
+       end) (clear_log (sc_g s)) = Ok (st, g') ->
+      let s' := {| sc_g := g'; sc_root := Some st |} in
+      exists m', c01_step m (observe true s') = Some m' /\ Inv s' m'.
+  Proof.
+    intros f s m id cid i sti st g' (Hl & Hlt & Hr) Hroot H s'. rewrite Hroot in Hr.
+    destruct Hr as (M1 & M2 & M3 & Hlen & Hgood & Hnd & Hrun).
+    set (g0 := clear_log (sc_g s)) in *.
+    mstep as u1 g1 E1. unfold unawait in E1.
+    change (g_awaited g0) with (g_awaited (sc_g s)) in E1.
+    destruct (remove_first (Nat.eqb id) (g_awaited (sc_g s))) as [aw1|] eqn:R; [|discriminate].
+    unfold set_awaited in E1. inv E1.
+    pose proof (remove_first_length _ _ _ _ R) as L1.
+    pose proof (remove_first_Forall _ _ _ _ _ R Hlt) as FA1.
+    set (g1 := g0 <| g_awaited := aw1 |>) in *.
+    mstep as r g2 E2.
+    pose proof (proj1 (proj2 (deliver_eff orc imm f)) _ _ _ _ _ _ _ _ _ E2) as DE.
+    pose proof (proj1 (proj2 (deliver_good orc imm f)) _ _ _ _ _ _ _ _ _ E2 Hgood) as DG.
+    destruct r as [r|]; cbn [dres] in DE; [|discriminate].
+    destruct DE as [D1 D2 D3 D4 D5 D6 D7 D8 D9].
+    assert (Hl1 : lst0 (g_ls g1)) by (apply lst_all_lst0; exact Hl).
+    specialize (D7 Hl1).
+    assert (FA1' : Forall (fun x => x < g_sid g1) (g_awaited g1)) by exact FA1.
+    destruct (D6 FA1') as (new & B1 & B2 & B3).
+    assert (N1 : nK SS g1 = 0) by reflexivity.
+    assert (N2 : nK SF g1 = 0) by reflexivity.
+    assert (R1 : g_running g1 = true) by exact Hrun.
+    assert (AR2 : all_run g2 = true) by (apply D8; [exact R1|reflexivity]).
+    assert (P0 : forall k, nP k g2 = 0) by (intro k; rewrite D9; reflexivity).
+    assert (Aw2 : List.length (g_awaited g2) = List.length (ids_opt r)).
+    { rewrite B1, app_length. change (g_awaited g1) with aw1. lia. }
+    assert (FA2 : Forall (fun x => x < g_sid g2) (g_awaited g2)).
+    { rewrite B1. apply Forall_app. split.
+      - eapply Forall_lt_le; [exact D4|exact FA1].
+      - eapply Forall_impl; [|exact B2]. cbn; intros; lia. }
+    destruct r as [[j st']|].
+    - (* still waiting *)
+      mstep. cbn [good_oo good_opt ids_opt] in *. destruct DG as [GD ND].
+      eexists. split.
+      + eapply c01_step_ok; cbn [sc_g sc_root s'].
+        * reflexivity.
+        * reflexivity.
+        * instantiate (1 := List.length (svc_ids st')). rewrite M3. lia.
+        * rewrite M1. reflexivity.
+        * exact M2.
+        * intros _. apply P0.
+        * rewrite (P0 TF). lia.
+        * rewrite (P0 TF). split; [discriminate|].
+          intro Hz. apply length_zero_iff_nil in Hz. exfalso. revert Hz. apply good_nonstall; assumption.
+        * exact AR2.
+        * rewrite D3, R1, M2, (P0 TF). reflexivity.
+        * cbn. rewrite M2, (P0 TF). reflexivity.
+        * exact Aw2.
+      + unfold Inv. cbn [sc_g sc_root s' c01_started c01_finished c01_out].
+        split; [rewrite D1; exact Hl|]. split; [exact FA2|].
+        rewrite M1, M2, (P0 TS), (P0 TF). cbn. rewrite Aw2, D3.
+        repeat split; auto.
+    - (* the last outstanding completion *)
+      mstep as u5 g5 E5. unfold finish_root in E5.
+      mstep as u6 g6 E6. apply emit_prod_facts in E6; [|right; reflexivity|rewrite D1; exact Hl].
+      destruct E6 as (C1 & C2 & C3 & C4 & C5 & C6 & C7 & C8 & C9 & C10 & C11).
+      unfold set_running in E5. inv E5. mstep. cbn [ids_opt List.length] in *.
+      assert (Aw6 : g_awaited g6 = []) by (rewrite C6; apply length_zero_iff_nil; exact Aw2).
+      eexists. split.
+      + eapply c01_step_ok; cbn [sc_g sc_root s'].
+        * reflexivity.
+        * reflexivity.
+        * instantiate (1 := 0). change (nK SF (g6 <| g_running := false |>)) with (nK SF g6).
+          change (nK SS (g6 <| g_running := false |>)) with (nK SS g6). rewrite C7, C8, M3. lia.
+        * rewrite M1. reflexivity.
+        * exact M2.
+        * intros _. change (nP TS (g6 <| g_running := false |>)) with (nP TS g6).
+          rewrite (C10 TS) by discriminate. apply P0.
+        * change (nP TF (g6 <| g_running := false |>)) with (nP TF g6). rewrite C9, (P0 TF). lia.
+        * change (nP TF (g6 <| g_running := false |>)) with (nP TF g6). rewrite C9, (P0 TF). split; auto.
+        * change (all_run (g6 <| g_running := false |>)) with (all_run g6).
+          apply C11; [congruence|exact AR2].
+        * change (nP TF (g6 <| g_running := false |>)) with (nP TF g6). rewrite C9, (P0 TF), M2. reflexivity.
+        * change (nP TF (g6 <| g_running := false |>)) with (nP TF g6). rewrite C9, (P0 TF), M2. reflexivity.
+        * cbn. rewrite Aw6. reflexivity.
+      + unfold Inv. cbn [sc_g sc_root s' c01_started c01_finished c01_out].
+        change (nP TF (g6 <| g_running := false |>)) with (nP TF g6).
+        change (nP TS (g6 <| g_running := false |>)) with (nP TS g6).
+        cbn [g_ls g_sid g_awaited g_running set].
+        split; [rewrite C1, D1; exact Hl|]. split.
+        * rewrite Aw6. constructor.
+        * rewrite C9, (P0 TF), M1, Aw6. cbn. repeat split; try reflexivity; apply orb_true_r.
   Qed.
 
   Lemma lst_all_default : lst_all default_listeners.
   Proof. intro k. destruct k; reflexivity. Qed.
+
+  Definition InvT (s : sched) : Prop := sc_root s = None -> g_tid (sc_g s) = 0.
+
+  Lemma quiet_same : forall s m b,
+      Inv s m ->
+      let s' := {| sc_g := clear_log (sc_g s); sc_root := sc_root s |} in
+      c01_step m (observe b s') = Some m /\ Inv s' m.
+  Proof.
+    intros s m b HI.
+    exact (quiet_step _ _ b (g_ls (sc_g s)) (g_obs (sc_g s)) HI (proj1 HI)).
+  Qed.
+
+  Lemma listeners_of_app : forall k ls k' l,
+      listeners_of k (ls ++ [(k', l)]) = listeners_of k ls ++ (if nkind_eqb k' k then [l] else []).
+  Proof.
+    intros. unfold listeners_of. rewrite filter_app, map_app. cbn [filter fst snd map].
+    destruct (nkind_eqb k' k); reflexivity.
+  Qed.
+
+  Lemma existsb_registered : forall k ls,
+      count_occ Nat.eq_dec (listeners_of k ls) 0 = 1 ->
+      existsb (fun p => nkind_eqb (fst p) k && Nat.eqb (snd p) 0) ls = true.
+  Proof.
+    intros k ls. unfold listeners_of. induction ls as [|[k' l] ls IH]; cbn [filter map count_occ existsb fst snd].
+    - discriminate.
+    - destruct (nkind_eqb k' k) eqn:E; cbn [map count_occ andb].
+      + destruct l as [|l]; cbn [Nat.eqb]; [reflexivity|].
+        destruct (Nat.eq_dec (S l) 0); [discriminate|]. exact IH.
+      + exact IH.
+  Qed.
+
+  Lemma nkind_eqb_sym : forall a b, nkind_eqb a b = nkind_eqb b a.
+  Proof. destruct a, b; reflexivity. Qed.
+
+  Lemma register_keeps : forall ls k l,
+      lst_all ls ->
+      existsb (fun p => nkind_eqb (fst p) k && Nat.eqb (snd p) l) ls = false ->
+      lst_all (ls ++ [(k, l)]).
+  Proof.
+    intros ls k l Hl Hne k0. rewrite listeners_of_app.
+    destruct (nkind_eqb k k0) eqn:E; [|rewrite app_nil_r; apply Hl].
+    rewrite count_occ_app, (Hl k0). cbn [count_occ].
+    destruct (Nat.eq_dec l 0) as [->|]; [|reflexivity].
+    exfalso. assert (k = k0) by (destruct k, k0; try discriminate; reflexivity). subst k0.
+    rewrite (existsb_registered _ _ (Hl k)) in Hne. discriminate.
+  Qed.
+
+  Lemma api_step : forall f s m c b s',
+      Inv s m -> InvT s -> api_call orc imm f body s c = Ok (b, s') ->
+      exists m', c01_step m (observe b s') = Some m' /\ Inv s' m' /\ InvT s'.
+  Proof.
+    intros f s m c b s' HI HT H. destruct c as [|id| |k l|o|o]; cbn [api_call] in H.
+    - (* start *)
+      destruct (sc_root s) as [r0|] eqn:Hroot.
+      + inv H. destruct (quiet_same _ _ true HI) as [Q1 Q2]. rewrite Hroot in *.
+        exists m. split; [exact Q1|]. split; [exact Q2|]. intro Hn. discriminate.
+      + match type of H with match ?X with _ => _ end = _ => destruct X as [[st g']| | |] eqn:E end;
+          try discriminate. inv H.
+        destruct (start_step f _ _ _ _ HI Hroot E (HT Hroot)) as (m' & S1 & S2).
+        exists m'. split; [exact S1|]. split; [exact S2|]. intro Hn. discriminate.
+    - (* completion *)
+      change (g_awaited (clear_log (sc_g s))) with (g_awaited (sc_g s)) in H.
+      destruct (mem id (g_awaited (sc_g s))).
+      + destruct (sc_root s) as [[|id'|cid i sti|sts|bb i sti|k i sti|sts]|] eqn:Hroot; try discriminate.
+        match type of H with match ?X with _ => _ end = _ => destruct X as [[st g']| | |] eqn:E end;
+          try discriminate. inv H.
+        destruct (finish_step f _ _ id _ _ _ _ _ HI Hroot E) as (m' & S1 & S2).
+        exists m'. split; [exact S1|]. split; [exact S2|]. intro Hn. discriminate.
+      + inv H. destruct (quiet_same _ _ false HI) as [Q1 Q2].
+        exists m. split; [exact Q1|]. split; [exact Q2|]. exact HT.
+    - inv H. destruct (quiet_same _ _ false HI) as [Q1 Q2].
+      exists m. split; [exact Q1|]. split; [exact Q2|]. exact HT.
+    - (* register *)
+      change (g_ls (clear_log (sc_g s))) with (g_ls (sc_g s)) in H.
+      destruct (existsb (fun p => nkind_eqb (fst p) k && Nat.eqb (snd p) l) (g_ls (sc_g s))) eqn:Ex.
+      + inv H. destruct (quiet_same _ _ false HI) as [Q1 Q2].
+        exists m. split; [exact Q1|]. split; [exact Q2|]. exact HT.
+      + inv H.
+        destruct (quiet_step _ _ true (g_ls (sc_g s) ++ [(k, l)]) (g_obs (sc_g s)) HI
+                             (register_keeps _ _ _ (proj1 HI) Ex)) as [Q1 Q2].
+        exists m. split; [exact Q1|]. split; [exact Q2|]. exact HT.
+    - inv H.
+      destruct (quiet_step _ _ true (g_ls (sc_g s)) (g_obs (sc_g s) ++ [o]) HI (proj1 HI)) as [Q1 Q2].
+      exists m. split; [exact Q1|]. split; [exact Q2|]. exact HT.
+    - change (g_obs (clear_log (sc_g s))) with (g_obs (sc_g s)) in H.
+      destruct (remove_first (Nat.eqb o) (g_obs (sc_g s))) as [l|]; [|discriminate]. inv H.
+      destruct (quiet_step _ _ true (g_ls (sc_g s)) l HI (proj1 HI)) as [Q1 Q2].
+      exists m. split; [exact Q1|]. split; [exact Q2|]. exact HT.
+  Qed.
+
+  Theorem C01_run : forall f cs s m tr,
+      Inv s m -> InvT s -> run_script orc imm f body s cs = Ok tr -> c01_run m tr = true.
+  Proof.
+    intros f cs. induction cs as [|c cs IH]; intros s m tr HI HT H; cbn [run_script] in H.
+    - inv H. reflexivity.
+    - destruct (api_call orc imm f body s c) as [[b s']| | |] eqn:E; try discriminate.
+      cbn [rbind] in H.
+      destruct (run_script orc imm f body s' cs) as [t| | |] eqn:E2; try discriminate.
+      cbn [rbind] in H. inv H.
+      destruct (api_step _ _ _ _ _ _ HI HT E) as (m' & S1 & S2 & S3).
+      cbn [c01_run]. rewrite S1. eapply IH; eassumption.
+  Qed.
 End C01.
+
+(* Every run of the reference semantics, for every program body, oracle, choice of
+   immediate completions and every script of API calls (starts, completions of any
+   identifier, junk events, registrations, observers): if the model runs to the end of
+   the script the C01 monitor accepts the trace. *)
+Theorem C01_ref : forall orc imm body f cs tr,
+    run_script orc imm f body sched0 cs = Ok tr -> holds_C01 tr = true.
+Proof.
+  intros orc imm body f cs tr H. unfold holds_C01.
+  eapply C01_run; [| |exact H].
+  - unfold Inv. cbn. split; [apply lst_all_default|]. split; [constructor|]. repeat split; reflexivity.
+  - intro. reflexivity.
+Qed.
+
+Theorem C01_ref_programs : forall (c : runcase) (tr : list callrec), run_ref c = Ok tr -> holds_C01 tr = true.
+Proof.
+  intros c tr H. unfold run_ref in H.
+  destruct (existsb _ (rc_react c)); [discriminate|].
+  destruct (unfold_program (p_tasks (rc_prog c)) 200) as [body| | |]; try discriminate.
+  cbn [rbind] in H. eapply C01_ref; exact H.
+Qed.
+
+Theorem C01_ref_nonvacuous :
+  exists tr, run_ref ex_case = Ok tr /\ existsb (fun r => cr_final r) tr = true /\ holds_C01 tr = true.
+Proof.
+  destruct ex_runs as (tr & H & _ & Hf). exists tr. split; [exact H|]. split; [exact Hf|].
+  exact (C01_ref_programs _ _ H).
+Qed.
